@@ -329,6 +329,36 @@ Fixpoint infer_df_stype (df : list (string * list cell)) : option (list (string 
       end
   end.
 
+(* ---------------------------------------------------------------- magnitude / representation *)
+(* every numeric value of the column multiplied by the integer k (the missing cells, and
+   every non-numeric cell, stay) *)
+Definition scale_cell (k : Z) (c : cell) : cell :=
+  match c with
+  | Float q => Float (q * inject_Z k)
+  | Int z => Int (z * k)
+  | c => c
+  end.
+
+(* ser.astype('int64') of a whole float, as numpy does it: values outside the int64
+   range become INT64_MIN.  NOT what infer_series_stype does -- the variant of the code
+   that counts whole floats after such a cast is refuted in Props/C18.v. *)
+Definition int64_min : Z := (- 2 ^ 63)%Z.
+Definition cast_int64 (c : cell) : cell :=
+  match c with
+  | Float q =>
+      let z := (Qnum q / Zpos (Qden q))%Z in
+      if ((int64_min <=? z) && (z <? 2 ^ 63))%Z then Int z else Int int64_min
+  | c => c
+  end.
+Definition infer_after_int64_cast (col : list cell) : outcome :=
+  if has_nan col && forallb is_integral (dropna col) && forallb is_num_cell (dropna col)
+  then infer_series_stype (map cast_int64 col)
+  else infer_series_stype col.
+
+(* the string part of the decision table with its priorities made explicit *)
+Definition string_column_decision (ser : list cell) : stype :=
+  if is_timestamp ser then st_timestamp else string_table_spec ser.
+
 (* ---------------------------------------------------------------- for the correspondence *)
 Definition ostype_eqb (a b : option stype) : bool :=
   match a, b with
